@@ -94,7 +94,11 @@ def run_cases(chk, plan, label, crlf_ok=True):
             if r.get("ml"):
                 # the value keeps what the comment holds between the quotes (continuation prefix included: gray)
                 mlv = b["attributes"].pop("ml", None)
-                if mlv is None or not (mlv.startswith("two") and mlv.endswith("lines")):
+                sec = b["attributes"].pop("second", None)
+                if sec is not None:
+                    if (mlv, sec) != ("two", "lines"):
+                        chk.violation("%s: attributes of a two-line tag came back as ml=%r second=%r" % (ext, mlv, sec), detail)
+                elif mlv is None or not (mlv.startswith("two") and mlv.endswith("lines")):
                     chk.violation("%s: two-line attribute value came back as %r" % (ext, mlv), detail)
             if b["attributes"] != want_attrs:
                 chk.violation("%s: attributes %s for block %s" % (ext, b["attributes"], b["name"]), detail)
